@@ -186,11 +186,36 @@ fn check_pair(basis: &[u8], src: &[u8], bs: usize, greedy_only: bool) -> Option<
             if out2 != src { return Some(format!("{name} + AsyncCopiaSync::patch did not reproduce the source")); }
         }
         if !greedy_only && ad != d { return Some("AsyncCopiaSync::delta differs from CopiaSync::delta for the same inputs".into()); }
+        // the file-to-file entry point (AsyncCopiaSync::sync_files, behind `copia sync SRC DST`) at THIS block size
+        if let Some(w) = check_sync_files(basis, src, bs, greedy_only) { return Some(w); }
         None
     });
     match r { Ok(x) => x, Err(_) => Some("an engine panicked".into()) }
 }
 
+fn check_sync_files(basis: &[u8], src: &[u8], bs: usize, greedy_only: bool) -> Option<String> {
+    static N: std::sync::atomic::AtomicU64 = std::sync::atomic::AtomicU64::new(0);
+    let d = std::env::temp_dir().join(format!("copia-verif-sf-{}-{}", std::process::id(), N.fetch_add(1, std::sync::atomic::Ordering::Relaxed)));
+    let _ = std::fs::create_dir_all(&d);
+    let (ps, pd) = (d.join("src"), d.join("dst"));
+    let r = (|| -> Option<String> {
+        std::fs::write(&ps, src).ok()?; std::fs::write(&pd, basis).ok()?;
+        let asy = AsyncCopiaSync::with_block_size(bs);
+        let res = match rt().block_on(asy.sync_files(&ps, &pd)) { Ok(r) => r, Err(e) => return Some(format!("AsyncCopiaSync::sync_files failed on plain files: {e}")) };
+        let got = std::fs::read(&pd).ok()?;
+        if greedy_only {
+            // identical files take the no-op path (0 literal bytes); otherwise the engine behind sync_files is the same greedy scan
+            let g = if src == basis { 0 } else { greedy_lit(src, basis, bs) };
+            if res.bytes_literal > g { return Some(format!("AsyncCopiaSync::with_block_size({bs}).sync_files: {} literal bytes, the textbook greedy scan at block size {bs} needs {g}", res.bytes_literal)); }
+        } else {
+            if got != src { return Some(format!("AsyncCopiaSync::with_block_size({bs}).sync_files returned Ok but the destination file is not byte-identical to the source")); }
+            if res.source_size != src.len() as u64 || res.bytes_matched + res.bytes_literal != res.source_size { return Some("sync_files: the reported sizes do not add up to the source size".into()); }
+        }
+        None
+    })();
+    let _ = std::fs::remove_dir_all(&d);
+    r
+}
 pub fn search_pairs(greedy_only: bool, seed: u64, budget: u64, as_twin: bool) -> i32 {
     let t0 = Instant::now();
     let mut cases = 0u64;
